@@ -1887,27 +1887,36 @@ def l_galreply( ctx ):
                 branch = blk
     if branch is None:
         raise AnalysisError( 'Object.request: the branch that answers Get Attribute List not found' )
+    class _Att( type( Record())):
+        pass
+    def _object_produce( *a ):
+        raise TypeError( 'Object.produce() missing 1 required positional argument' )	# slot '0' holds the Object, whose produce is a classmethod over a request
     env = dict( consts )
     ACC = sorted( { a_.target.id for st_ in branch for a_ in ast.walk( st_ ) if isinstance( a_, ast.AugAssign ) and isinstance( a_.target, ast.Name ) } )
     if not ACC:
         raise AnalysisError( 'Object.request: the accumulator of the Get Attribute List reply not found' )
-    env.update( { 'data': { 'service': consts.get( 'GA_LST_RPY' ), 'get_attribute_list': [ 1, 2, 99 ] }, ACC[0]: b'', 'UINT.produce': lambda v: struct.pack( '<H', v ),
-                  'self.attribute': { '1': Record( produce=lambda: b'\x05\x00' ), '2': Record( produce=lambda: b'\x03\xb2\x80\xc5' ) },
-                  'str': str, 'dotdict': lambda *a, **kw: dict( *a, **kw ), 'type': type, 'int': int, 'ord': ord, 'len': len } )
+    env.update( { 'data': { 'service': consts.get( 'GA_LST_RPY' ), 'get_attribute_list': [ 1, 2, 99, 0 ] }, ACC[0]: b'', 'UINT.produce': lambda v: struct.pack( '<H', v ),
+                  'self.attribute': { '0': Record( produce=_object_produce ), '1': _Att( produce=lambda: b'\x05\x00' ), '2': _Att( produce=lambda: b'\x03\xb2\x80\xc5' ) },
+                  'Attribute': _Att, 'isinstance': isinstance, 'str': str, 'dotdict': lambda *a, **kw: dict( *a, **kw ), 'type': type, 'int': int, 'ord': ord, 'len': len } )
     try:
         run_block( branch, env, ignore_calls=( 'log', ))
+    except Raises as exc:
+        res.bad( src, branch[0], 'Get Attribute List naming attributes 1, 2, 99, 0 raises %s' % exc,
+                 'number 0 is the slot the Object keeps itself in, not an attribute: asked for it, the whole request fails ( status 0x08, no data ) where a missing attribute gets its own status' )
+        return res
     except NoFold as exc:
         raise AnalysisError( 'Object.request: the Get Attribute List branch is not a decision fragment: %s' % exc )
     rec = env['data'].get( 'get_attribute_list' )
     got = bytes( bytearray( rec['data'] )) if isinstance( rec, dict ) and 'data' in rec else None
     body = b'\x01\x00\x00\x00\x05\x00' + b'\x02\x00\x00\x00\x03\xb2\x80\xc5'
-    ok = got is not None and got.startswith( b'\x03\x00' + body ) and got[2 + len( body ):2 + len( body ) + 2] == b'\x63\x00' and len( got ) == 2 + len( body ) + 4
+    # ( attribute number 0 is the slot of the Object itself: not an attribute, answered like the missing 99 )
+    ok = got is not None and got.startswith( b'\x04\x00' + body ) and got[2 + len( body ):] in ( b'\x63\x00\x16\x00\x00\x00\x16\x00', b'\x63\x00\x14\x00\x00\x00\x14\x00' )
     res.cells += 1
     if ok:
         res.ok( src, branch[0], 'the Get Attribute List reply carries the number of attribute responses, then number / status / value per attribute' )
     else:
-        res.bad( src, branch[0], 'Get Attribute List reply data for attributes 1, 2, 99: %s' % ( got.hex() if got is not None else None ),
-                 'the reply data must begin with the UINT number of attribute responses ( 03 00 ) followed by ( number, status [, value ] ) groups: without it a client written from the specification takes the first attribute number for the count' )
+        res.bad( src, branch[0], 'Get Attribute List reply data for attributes 1, 2, 99, 0: %s' % ( got.hex() if got is not None else None ),
+                 'the reply data must begin with the UINT number of attribute responses ( 04 00 ) followed by ( number, status [, value ] ) groups: without it a client written from the specification takes the first attribute number for the count' )
     return res
 
 
